@@ -60,4 +60,23 @@ def streams(tier, rng, P, only=None, cases=None):
     s2 = execstream.exec_stream(tier, rng, P, only, cases)
     s3 = execstream.compile_stream(tier, rng, P, only, cases)
     s4 = execstream.print_stream(tier, rng, P, only, cases)
-    return [s for s in (s1, s2, s3, s4) if only in (None, s.name)]
+    # ---- numeric key signatures: KeyFlag=(a,b,c,d,e,f,g), one signed value per note name
+    def mk_kf():
+        cs = []
+        for i in range(400 if big else 60):
+            vals = [rng.choice([0, 0, 1, -1, 1, -1, 2]) for _ in range(rng.choice([7, 7, 7, 3, 5, 1]))]
+            txt = ",".join(rng.choice(["%d", "%d", "+%d"]) % v if v >= 0 else str(v) for v in vals)
+            src = "%s=(%s) a b c d e f g" % (rng.choice(["KeyFlag", "System.KeyFlag", "KeyFlag"]), txt)
+            cs.append(dict(req="lexrun " + hx(src), src=src, show=src, vals=vals, key="kf%d" % i))
+        return cs
+    def kf_model(c, st, f): return ["keyflagspec " + ",".join(str(v) for v in c["vals"])]
+    def kf_judge(c, impl, m):
+        st, f = impl
+        if st != "ok": return ("violation", "key signature program did not run normally: " + st)
+        got = dict(p.split(":", 1) for p in f["song"].split(",") if ":" in p).get("kf")
+        want = m[0].split("kf=")[1].strip()
+        if got != want: return ("violation", "key flags after %s are %s, the signature denotes %s" % (c["src"].split(" ")[0], got, want))
+        return None
+    s5 = Stream("keyflag", cases if (cases and only == "keyflag") else mk_kf(), kf_model, kf_judge, lambda c, i, m: m[0] if i[0] == "ok" else None,
+                "numeric key signatures vs the documented table", timeout_case=20.0)
+    return [s for s in (s1, s2, s3, s4, s5) if only in (None, s.name)]
